@@ -1,18 +1,71 @@
 package fr
 
+import (
+	"context"
+	"fmt"
+	"time"
+
+	"cosmossdk.io/collections"
+	sdkmath "cosmossdk.io/math"
+	sdk "github.com/cosmos/cosmos-sdk/types"
+
+	frkeeper "github.com/tendermint/fundraising/x/fundraising/keeper"
+	fundraising "github.com/tendermint/fundraising/x/fundraising/module"
+	frtypes "github.com/tendermint/fundraising/x/fundraising/types"
+)
+
 // HookCall is one observed listener call (C17).
 type HookCall struct {
 	H    string         `json:"h"`
 	L    int            `json:"l"`
-	Args map[string]any `json:"args,omitempty"`
+	Args map[string]any `json:"args"`
 	Seen bool           `json:"seen"`
 }
 
-// Listener is installed through the module's InvokeSetHooks (see hooks_install.go).
+// Listener implements types.FundraisingHooks and records every call.
 type Listener struct {
 	Idx  int
 	Env  *Env
 	Fail string // hook name at which this listener returns an error ("" = never)
+}
+
+var _ frtypes.FundraisingHooks = (*Listener)(nil)
+
+// InstallListeners registers n listeners the way the module does it: through the exported
+// InvokeSetHooks on a keeper copy, with module names chosen out of lexical order so that the
+// "ordered by module name" rule of module.go is part of what is observed.
+func (e *Env) InstallListeners(n int) error {
+	if n == 0 {
+		return nil
+	}
+	names := []string{"zz-first-registered", "mm-second", "aa-third", "kk-fourth"}
+	m := map[string]frtypes.FundraisingHooks{}
+	byName := map[string]*Listener{}
+	for i := 0; i < n; i++ {
+		l := &Listener{Env: e}
+		byName[names[i]] = l
+		m[names[i]] = l
+	}
+	// listener index = position in lexical order of the module names
+	sorted := append([]string{}, names[:n]...)
+	for i := 0; i < len(sorted); i++ {
+		for j := i + 1; j < len(sorted); j++ {
+			if sorted[j] < sorted[i] {
+				sorted[i], sorted[j] = sorted[j], sorted[i]
+			}
+		}
+	}
+	for i, nm := range sorted {
+		byName[nm].Idx = i + 1
+		e.Lis = append(e.Lis, byName[nm])
+	}
+	k := e.B.App.FundraisingKeeper // a copy; the application's own keeper has no hooks
+	if err := fundraising.InvokeSetHooks(&k, m); err != nil {
+		return err
+	}
+	e.K = k
+	e.Msg = frkeeper.NewMsgServerImpl(k)
+	return nil
 }
 
 func (e *Env) armHooks(a Action) {
@@ -22,4 +75,155 @@ func (e *Env) armHooks(a Action) {
 			l.Fail = a.HookFail
 		}
 	}
+}
+
+func (l *Listener) rec(h string, args map[string]any, seen bool) error {
+	l.Env.HookLog = append(l.Env.HookLog, HookCall{H: h, L: l.Idx, Args: args, Seen: seen})
+	if l.Fail == h {
+		return fmt.Errorf("verif: listener %d vetoes %s", l.Idx, h)
+	}
+	return nil
+}
+
+func (l *Listener) schedJ(s []frtypes.VestingSchedule) []any {
+	out := []any{}
+	for _, x := range s {
+		out = append(out, map[string]any{"t": TimeTick(x.ReleaseTime), "w": l.Env.DecNum(x.Weight)})
+	}
+	return out
+}
+
+func (l *Listener) createArgs(id int64, auctioneer string, price sdkmath.LegacyDec, sell sdk.Coin, pay string,
+	sched []frtypes.VestingSchedule, start, end time.Time) map[string]any {
+	e := l.Env
+	return map[string]any{"id": id, "by": e.name(auctioneer), "price": e.DecNum(price), "sellDenom": ModelDenom(sell.Denom),
+		"sellAmt": sell.Amount.Int64(), "payDenom": ModelDenom(pay), "sched": l.schedJ(sched), "start": TimeTick(start), "end": TimeTick(end)}
+}
+
+// nextAuctionStored: has the auction that is being announced already been written?
+func (l *Listener) newAuctionStored(ctx context.Context) bool {
+	seq, err := l.Env.K.AuctionSeq.Peek(ctx)
+	if err != nil || seq == 0 {
+		return false
+	}
+	ok, _ := l.Env.K.Auction.Has(ctx, seq-1)
+	return ok
+}
+
+func (l *Listener) BeforeFixedPriceAuctionCreated(ctx context.Context, auctioneer string, startPrice sdkmath.LegacyDec, sellingCoin sdk.Coin,
+	payingCoinDenom string, vs []frtypes.VestingSchedule, startTime, endTime time.Time) error {
+	return l.rec("BeforeFixedPriceAuctionCreated", l.createArgs(-1, auctioneer, startPrice, sellingCoin, payingCoinDenom, vs, startTime, endTime),
+		l.newAuctionStored(ctx))
+}
+
+func (l *Listener) AfterFixedPriceAuctionCreated(ctx context.Context, auctionId uint64, auctioneer string, startPrice sdkmath.LegacyDec,
+	sellingCoin sdk.Coin, payingCoinDenom string, vs []frtypes.VestingSchedule, startTime, endTime time.Time) error {
+	return l.rec("AfterFixedPriceAuctionCreated", l.createArgs(int64(auctionId), auctioneer, startPrice, sellingCoin, payingCoinDenom, vs, startTime, endTime),
+		true)
+}
+
+func (l *Listener) BeforeBatchAuctionCreated(ctx context.Context, auctioneer string, startPrice, minBidPrice sdkmath.LegacyDec, sellingCoin sdk.Coin,
+	payingCoinDenom string, vs []frtypes.VestingSchedule, maxExtendedRound uint32, extendedRoundRate sdkmath.LegacyDec, startTime, endTime time.Time) error {
+	a := l.createArgs(-1, auctioneer, startPrice, sellingCoin, payingCoinDenom, vs, startTime, endTime)
+	a["minPrice"], a["maxExt"], a["rate"] = l.Env.DecNum(minBidPrice), int64(maxExtendedRound), l.Env.DecNum(extendedRoundRate)
+	return l.rec("BeforeBatchAuctionCreated", a, l.newAuctionStored(ctx))
+}
+
+func (l *Listener) AfterBatchAuctionCreated(ctx context.Context, auctionId uint64, auctioneer string, startPrice, minBidPrice sdkmath.LegacyDec,
+	sellingCoin sdk.Coin, payingCoinDenom string, vs []frtypes.VestingSchedule, maxExtendedRound uint32, extendedRoundRate sdkmath.LegacyDec,
+	startTime, endTime time.Time) error {
+	a := l.createArgs(int64(auctionId), auctioneer, startPrice, sellingCoin, payingCoinDenom, vs, startTime, endTime)
+	a["minPrice"], a["maxExt"], a["rate"] = l.Env.DecNum(minBidPrice), int64(maxExtendedRound), l.Env.DecNum(extendedRoundRate)
+	return l.rec("AfterBatchAuctionCreated", a, true)
+}
+
+func (l *Listener) BeforeAuctionCanceled(ctx context.Context, auctionId uint64, auctioneer string) error {
+	seen := false
+	if a, err := l.Env.K.Auction.Get(ctx, auctionId); err == nil {
+		seen = a.GetStatus() == frtypes.AuctionStatusCancelled
+	}
+	return l.rec("BeforeAuctionCanceled", map[string]any{"id": int64(auctionId), "by": l.Env.name(auctioneer)}, seen)
+}
+
+func (l *Listener) bidArgs(auctionId, bidId uint64, bidder string, bidType frtypes.BidType, price sdkmath.LegacyDec, coin sdk.Coin) map[string]any {
+	return map[string]any{"id": int64(auctionId), "bid": int64(bidId), "by": l.Env.name(bidder), "type": bidTypeName(bidType),
+		"price": l.Env.DecNum(price), "denom": ModelDenom(coin.Denom), "amt": coin.Amount.Int64()}
+}
+
+func (l *Listener) BeforeBidPlaced(ctx context.Context, auctionId, bidId uint64, bidder string, bidType frtypes.BidType, price sdkmath.LegacyDec, coin sdk.Coin) error {
+	seen, _ := l.Env.K.Bid.Has(ctx, collections.Join(auctionId, bidId))
+	return l.rec("BeforeBidPlaced", l.bidArgs(auctionId, bidId, bidder, bidType, price, coin), seen)
+}
+
+func (l *Listener) BeforeBidModified(ctx context.Context, auctionId, bidId uint64, bidder string, bidType frtypes.BidType, price sdkmath.LegacyDec, coin sdk.Coin) error {
+	seen := false
+	if b, err := l.Env.K.Bid.Get(ctx, collections.Join(auctionId, bidId)); err == nil {
+		seen = b.Price.Equal(price) && b.Coin.IsEqual(coin)
+	}
+	return l.rec("BeforeBidModified", l.bidArgs(auctionId, bidId, bidder, bidType, price, coin), seen)
+}
+
+func (l *Listener) BeforeAllowedBiddersAdded(ctx context.Context, abs []frtypes.AllowedBidder) error {
+	entries := []any{}
+	seen := false
+	for _, ab := range abs {
+		entries = append(entries, map[string]any{"id": int64(ab.AuctionId), "u": l.Env.name(ab.Bidder), "cap": ab.MaxBidAmount.Int64()})
+		if addr, err := sdk.AccAddressFromBech32(ab.Bidder); err == nil {
+			cur, err := l.Env.K.AllowedBidder.Get(ctx, collections.Join(ab.AuctionId, addr))
+			before := l.Env.preCap(ab.AuctionId, l.Env.name(ab.Bidder))
+			if err == nil && cur.MaxBidAmount.Int64() != before {
+				seen = true
+			}
+		}
+	}
+	return l.rec("BeforeAllowedBiddersAdded", map[string]any{"entries": entries}, seen)
+}
+
+func (l *Listener) BeforeAllowedBidderUpdated(ctx context.Context, auctionId uint64, bidder sdk.AccAddress, maxBidAmount sdkmath.Int) error {
+	seen := false
+	if cur, err := l.Env.K.AllowedBidder.Get(ctx, collections.Join(auctionId, bidder)); err == nil {
+		seen = cur.MaxBidAmount.Int64() != l.Env.preCap(auctionId, l.Env.name(bidder.String()))
+	}
+	return l.rec("BeforeAllowedBidderUpdated", map[string]any{"id": int64(auctionId), "u": l.Env.name(bidder.String()), "cap": maxBidAmount.Int64()}, seen)
+}
+
+func (l *Listener) BeforeSellingCoinsAllocated(ctx context.Context, auctionId uint64, allocationMap, refundMap map[string]sdkmath.Int) error {
+	e := l.Env
+	toModel := func(m map[string]sdkmath.Int) map[string]any {
+		out := map[string]any{}
+		for _, u := range e.Users {
+			out[u] = int64(0)
+		}
+		for k, v := range m {
+			out[e.name(k)] = v.Int64()
+		}
+		return out
+	}
+	seen := false
+	if a, err := e.K.Auction.Get(ctx, auctionId); err == nil {
+		bal := e.B.App.BankKeeper.GetBalance(ctx, a.GetSellingReserveAddress(), a.GetSellingCoin().Denom).Amount.Int64()
+		seen = a.GetStatus() != frtypes.AuctionStatusStarted || bal != e.preSellBal(auctionId)
+	}
+	return l.rec("BeforeSellingCoinsAllocated", map[string]any{"id": int64(auctionId), "alloc": toModel(allocationMap), "refund": toModel(refundMap)}, seen)
+}
+
+// preCap / preSellBal read the state before the step (the behaviour's committed context).
+func (e *Env) preCap(auctionId uint64, user string) int64 {
+	addr, ok := e.Addr[user]
+	if !ok {
+		return 0
+	}
+	ab, err := e.K.AllowedBidder.Get(e.Ctx, collections.Join(auctionId, addr))
+	if err != nil {
+		return 0
+	}
+	return ab.MaxBidAmount.Int64()
+}
+
+func (e *Env) preSellBal(auctionId uint64) int64 {
+	a, err := e.K.Auction.Get(e.Ctx, auctionId)
+	if err != nil {
+		return 0
+	}
+	return e.B.App.BankKeeper.GetBalance(e.Ctx, a.GetSellingReserveAddress(), a.GetSellingCoin().Denom).Amount.Int64()
 }
